@@ -110,8 +110,9 @@ def _context(it):
     return module, function
 
 
-def differential(tier='quick'):
-    """-> (list of discrepancy texts, number of instruction encodings compared, number that translated)"""
+def differential(tier='quick', only=None, details=None):
+    """-> (list of discrepancy texts, number of instruction encodings compared, number that translated); only: restrict to these
+    instruction names; details: a list that receives (name, dead, minimal bytes, outcome of the minimal encoding, outcome of the padded one)"""
     tus = emit.translator_tus(('c.c', 'opcode.c', 'instruction.c'))
     it = emit.make_interp(tus)
     for k in list(emit.stream_leafs(lambda i: None)):
@@ -122,6 +123,8 @@ def differential(tier='quick'):
     n = ok = 0
     for row in oracle.ROWS:
         if not row['imm'] and len(row['enc']) < 2:
+            continue
+        if only is not None and row['name'] not in only:
             continue
         stack = mr.FILLER + [('i32' if p == 'any' else p) for p in row['params']]
         for ignore in (0, 1):
@@ -154,6 +157,8 @@ def differential(tier='quick'):
                 outs.append((p.ret if not p.aborted else 'abort:%s' % p.aborted, t.text(), tuple(t.stack_after or ()),
                              'bytes left unread: %r' % (left,), 'open labels: %r' % (labels,), 'dead-code mode: %r' % (t.ignore_after,)))
             n += 1
+            if details is not None:
+                details.append((row['name'], ignore, encode(toks, False), outs[0], outs[1]))
             if outs[0][0] == 1 and outs[1][0] == 1:
                 ok += 1
             if outs[0] != outs[1]:
